@@ -102,6 +102,7 @@ int main(int argc, char **argv) {
     o.hashlog = get("hashlog", "0") != "0";
     o.max_deaths = strtoull(get("max-deaths", "0").c_str(), nullptr, 0);
     if (cmd == "batch") return sim::ChanBatch(o);
+    if (cmd == "canary") return sim::ChanCanary(o);
     if (cmd == "exec")
       return sim::ChanExec(get("plans", ""), get("out", "/dev/stdout"), o.repo,
                            atoi(get("workers", "1").c_str()), o.log_dir);
